@@ -4,7 +4,7 @@ from vlib.tree_common import *
 
 RULE = ("random create/delete/enable/probe histories over 1-3 participants (publishers, subscribers, topics, "
         "content-filtered topics, writers, readers; deleted and never-created names are reused on purpose), about one "
-        "case in three with a counter loop `repeat n <create> [; delete]` with n in {3,10,253..256,300}; non-trivial = "
+        "case in three with a counter loop `repeat n <create> [; delete]` with n in {3,10,253..256,300} (corpus: 258 writers / readers / topics alive at once); non-trivial = "
         "at least 3 entities created and at least one delete/loop; distinct by canonical op lines")
 ASSUMPTIONS = ["the tree under check contains fixes/D40.patch (checked counter increments); the behaviour before the patch is kept as "
                "Model/TreeOld.lean + the C35_*_counterexample theorems + the `#model old` switch of the Lean driver (notes/tree.md, Follow-up)",
@@ -16,6 +16,12 @@ CORPUS = [
     ["participant P", "repeat 255 subscriber s%i P ; delete s%i", "subscriber last P", "probe P"],
     ["participant P", "participant Q", "publisher keep P", "repeat 254 publisher b%i P ; delete b%i", "publisher q Q",
      "handle keep", "handle q", "publisher one_too_many P"],
+    # more than 256 LIVE writers / readers / topics at once: every byte of the 16-bit counters must reach the entity key
+    # (seeded change C35_b: the high byte of writer_counter dropped, writer 256 gets the handle of writer 0)
+    ["participant P", "publisher pb P autoenable=0", "topic t P A ki", "repeat 258 writer w%i pb t", "handle w0", "handle w1", "handle w256",
+     "handle w257", "delete w0", "writer again pb t", "handle again"],
+    ["participant P", "subscriber sb P autoenable=0", "topic t P A ki", "repeat 258 reader r%i sb t", "handle r0", "handle r256", "handle r257"],
+    ["participant P autoenable=0", "repeat 258 topic t%i P N%i ki", "handle t0", "handle t256", "handle t257"],
     ["participant P", "topic t P A ki", "publisher pb P", "subscriber sb P", "writer w pb t history=keep_last:5 max_spi=2",
      "writer w2 pb t", "reader r sb t history=keep_last:5 max_spi=2", "reader r2 sb t", "cft c P t F 10 value <= %0", "topic t2 P B ni",
      "handle w2", "handle r2", "handle t2"],
